@@ -32,7 +32,7 @@ def obligations(tier, seed):
             for b in KINDS7:
                 if a != b:
                     for sid in ("p1_int_d", "p1_str_s", "p2_plain_then_d", "p1_bool_b", "p1_optint_none", "p1_kwargs", "p3_mixed"):
-                        obs.append(mk_ob("chain", "chain", (a, b), sid, opts, tier, funcs=FUNCS))
+                        obs.append(mk_ob("chain", "chain", (a, b), sid, opts, tier, funcs=FUNCS, pl=1, dr=2, timeout=600))
         n = 0
         for a in KINDS7:
             for b in KINDS7:
@@ -40,5 +40,6 @@ def obligations(tier, seed):
                     if a != b and b != c:
                         n += 1
                         if n % 5 == 0:
-                            obs.append(mk_ob("chain", "chain", (a, b, c), ("p1_int_d", "p1_str_s", "p2_plain_then_d")[n % 3], opts, tier, funcs=FUNCS))
+                            obs.append(mk_ob("chain", "chain", (a, b, c), ("p1_int_d", "p1_str_s", "p2_plain_then_d")[n % 3], opts, tier, funcs=FUNCS,
+                                             pl=1, dr=2, timeout=600))
     return obs
